@@ -356,7 +356,7 @@ func init() {
 				"stub": "SimConn (buffered in-memory net.Conn with fake-clock deadlines) returned by the verif-only Dial seam, scripted telnet server, fake clock, seeded controller",
 			},
 			Assumptions: []string{"gaps between segments stay <= socket-timeout/8, inside any window derived from the socket timeout"},
-			QuickRuns:   4000,
+			QuickRuns:   12000,
 			ThoroughS:   300,
 		},
 		Gen: genC15,
